@@ -208,7 +208,76 @@ func LoadCorpus(repo string) (*Corpus, error) {
 	}
 	theCorpus = c
 	addTransplantVariants(c, 36)
+	addSchemaVariants(c, 24)
 	return c, nil
+}
+
+// addSchemaVariants extends the corpus with documents that carry members of the published
+// schema which no shipped example (and therefore no transplant) has: a source document plus
+// one or two such members at its top level, with sample values of the right kind. Only
+// variants the tree under test calculates and validates are kept; the selection is fixed.
+func addSchemaVariants(c *Corpus, want int) {
+	var base []*Doc
+	for _, d := range c.Valid {
+		if !d.IsEnv && !strings.HasPrefix(d.Name, "synthetic/") {
+			base = append(base, d)
+		}
+	}
+	if len(base) == 0 {
+		return
+	}
+	// which top-level members does no corpus document carry?
+	seen := map[string]bool{}
+	for _, d := range c.Valid {
+		if doc := c04sourceDoc(d); doc != nil && doc.K == 'o' {
+			for _, m := range doc.M {
+				seen[doc.Get("$schema").Str()+"|"+m.Key] = true
+			}
+		}
+	}
+	kept := 0
+	for i := 0; i < want*16 && kept < want; i++ {
+		d0 := base[(i*5)%len(base)]
+		doc := c04sourceDoc(d0)
+		if doc == nil || doc.K != 'o' {
+			continue
+		}
+		doc = doc.Clone()
+		sm := schemaMembers(doc, "")
+		var unseen []string
+		for _, k := range SortedKeys(sm) {
+			if !seen[doc.Get("$schema").Str()+"|"+k] {
+				unseen = append(unseen, k)
+			}
+		}
+		if len(unseen) == 0 {
+			continue
+		}
+		r := RNG(20261004, int64(i), 78)
+		k := unseen[r.IntN(len(unseen))]
+		val, err := ParseJV([]byte(sm[k][0]))
+		if err != nil {
+			continue
+		}
+		doc.Set(k, val)
+		d := &Doc{Name: fmt.Sprintf("synthetic/schema-%02d-%s-of-%s", kept, k, strings.ReplaceAll(strings.TrimPrefix(d0.Name, "examples/"), "/", "-")), Src: doc.Encode(nil)}
+		buildDoc(d, len(c.Docs))
+		if d.Err != "" || d.PanicStack != "" {
+			if d.PanicStack != "" {
+				c.Docs = append(c.Docs, d)
+				c.byName[d.Name] = d
+			}
+			continue
+		}
+		c.Docs = append(c.Docs, d)
+		c.byName[d.Name] = d
+		c.Valid = append(c.Valid, d)
+		if d.Kind == "invoice" {
+			c.Invoices = append(c.Invoices, d)
+		}
+		seen[doc.Get("$schema").Str()+"|"+k] = true
+		kept++
+	}
 }
 
 // addTransplantVariants extends the corpus with documents that combine what the
